@@ -10,6 +10,7 @@ from mc import core, worlds, driver, xmaptext, cmaptext, e2e
 
 RULE = ("degenerate-world catalogue (1- and 2-label queries, duplicate positions, query longer than every / one reference, 1- and "
         "2-label references, reference shorter than the secondary margin, unlabelled molecules, far-apart labels, only-unalignable "
+        "files, molecules aligned only in their middle with short / long unplaceable heads and tails, "
         "files) x {degenerate alone, degenerate + good neighbour, neighbour alone} x parameter settings with <= 1 (quick) / <= 2 "
         "(thorough) deviations from the defaults (menus respect the option help: -md >= -r1, -su <= 0, -ms > 0) x modes; one real "
         "CLI subprocess per catalogue world; non-trivial = run contains a degenerate molecule and non-default parameters or produces "
@@ -73,6 +74,16 @@ def catalogue():
     W.append(('header-only-reference-file', [], [], good))
     W.append(('header-only-query-file', [R], [], None))
     W.append(('chimeric-with-unplaceable-fragment', [R], [worlds.as_map(5, worlds.apply_edit(list(good[2]), ('chimera', [0.0, 2300.0, 4700.0, 7000.0, 9400.0, 11700.0, 14100.0, 16400.0], 30000.0)))], goodr))
+    # first-pass alignment strictly inside the molecule, every combination of short (<= 3 labels) / long unplaceable head and tail:
+    # each combination takes another branch of the second-pass fragment code
+    foreign = [0.0, 2300.0, 4700.0, 7000.0, 9400.0, 11700.0, 14100.0, 16400.0, 18800.0, 21100.0, 23500.0, 25800.0, 28200.0]
+    core_w = worlds.window_query(R, 12, 16, False)[0][2]
+    core_r = worlds.window_query(R, 12, 16, True)[0][2]
+    for nm, nh, nt, cw in (('short-head-long-tail', 2, 12, core_w), ('long-head-short-tail', 11, 2, core_w), ('long-head-long-tail', 10, 10, core_w),
+                           ('short-head-short-tail', 2, 3, core_w), ('short-head-long-tail-reverse', 3, 13, core_r),
+                           ('long-head-short-tail-reverse', 12, 1, core_r)):
+        q = worlds.apply_edit(worlds.apply_edit(foreign[:nh], ('chimera', cw, 31000.0)), ('chimera', foreign[:nt], 27000.0))
+        W.append(('inner-alignment-' + nm, [R], [worlds.as_map(5, q)], goodr))
     return W
 
 
